@@ -16,19 +16,47 @@ struct Artifacts {
     jsoncons::jmespath::jmespath_expression<json>* jm = nullptr;
     jsoncons::jsonschema::json_schema<json>* schema = nullptr;
     jsoncons::jsonschema::json_schema<json>* schema7 = nullptr;
+    jsoncons::jsonschema::json_schema<json>* schema_wide7 = nullptr;     // every assertion keyword of draft-07 incl. content* and formats
+    jsoncons::jsonschema::json_schema<json>* schema_wide20 = nullptr;    // the 2019-09/2020-12 keywords
+    json wide;                                                            // an instance that reaches every one of them
+    jsoncons::jsonpath::jsonpath_expression<json>* jp2 = nullptr;        // every JSONPath function, patterns taken from the document
+    jsoncons::jmespath::jmespath_expression<json>* jm2 = nullptr;        // every JMESPath function
+    json numbers;                                                         // doubles on every formatting path
 };
 static Artifacts* A = nullptr;
 
 static void build_artifacts() {
     A = new Artifacts;
-    const char* text = R"({"a":[{"k":"abc","n":1,"t":["x","y"]},{"k":"xbc","n":2,"t":[]},{"k":"abd","n":3,"t":["z"]}],"b":"xyz","c":{"d":{"e":[1,2.5,"long string value that is heap allocated ....."]}},"n":null})";
+    const char* text = R"({"a":[{"k":"abc","n":1,"t":["x","y"]},{"k":"xbc","n":2,"t":[]},{"k":"abd","n":3,"t":["z"]}],"b":"xyz","c":{"d":{"e":[1,2.5,"long string value that is heap allocated ....."]}},"n":null,"seps":["b","c"],"nums":[3,1.5,2]})";
     A->doc = json::parse(text); A->odoc = ojson::parse(text); A->doc2 = json::parse(text);
     A->jp = new jsoncons::jsonpath::jsonpath_expression<json>(jsoncons::jsonpath::make_expression<json>("$.a[?(@.n > 1 && tokenize(@.k,'b')[0] != 'q' && length(@.t) >= 0 && @.k =~ /.*b.*/)].k"));
     A->jm = new jsoncons::jmespath::jmespath_expression<json>(jsoncons::jmespath::make_expression<json>("sort_by(a[?n > `0`], &k)[*].{key: k, len: length(t)} | [?len >= `0`].key"));
-    json s = json::parse(R"({"$schema":"https://json-schema.org/draft/2020-12/schema","type":"object","properties":{"a":{"type":"array","items":{"$ref":"#/$defs/e"},"minItems":1},"b":{"type":"string","pattern":"^x","maxLength":10},"c":{"type":"object"},"n":{"type":["null","integer"]}},"$defs":{"e":{"type":"object","properties":{"k":{"type":"string","pattern":"b"},"n":{"type":"integer","minimum":1},"t":{"type":"array","uniqueItems":true}},"required":["k"],"additionalProperties":false}},"required":["a"],"unevaluatedProperties":false})");
+    json s = json::parse(R"({"$schema":"https://json-schema.org/draft/2020-12/schema","type":"object","properties":{"a":{"type":"array","items":{"$ref":"#/$defs/e"},"minItems":1},"b":{"type":"string","pattern":"^x","maxLength":10},"c":{"type":"object"},"n":{"type":["null","integer"]},"seps":{"type":"array"},"nums":{"type":"array","items":{"type":"number"}}},"$defs":{"e":{"type":"object","properties":{"k":{"type":"string","pattern":"b"},"n":{"type":"integer","minimum":1},"t":{"type":"array","uniqueItems":true}},"required":["k"],"additionalProperties":false}},"required":["a"],"unevaluatedProperties":false})");
     A->schema = new jsoncons::jsonschema::json_schema<json>(jsoncons::jsonschema::make_json_schema(s));
     json s7 = json::parse(R"({"$schema":"http://json-schema.org/draft-07/schema#","type":"object","properties":{"b":{"type":"string","format":"date"},"a":{"type":"array","contains":{"type":"object"}}},"dependencies":{"a":["b"]},"if":{"required":["zz"]},"then":{"required":["yy"]},"else":{"required":["a"]}})");
     A->schema7 = new jsoncons::jsonschema::json_schema<json>(jsoncons::jsonschema::make_json_schema(s7));
+    json w7 = json::parse(R"({"$schema":"http://json-schema.org/draft-07/schema#","type":"object","definitions":{"pos":{"type":"integer","minimum":1,"exclusiveMaximum":1000,"multipleOf":1}},
+      "properties":{"payload":{"type":"string","contentMediaType":"application/json"},"b64":{"type":"string","contentEncoding":"base64","contentMediaType":"application/json"},
+        "date":{"format":"date"},"time":{"format":"time"},"dt":{"format":"date-time"},"email":{"format":"email"},"host":{"format":"hostname"},"ip4":{"format":"ipv4"},"ip6":{"format":"ipv6"},"re":{"format":"regex"},"ptr":{"format":"json-pointer"},
+        "uri":{"format":"uri"},"name":{"type":"string","minLength":1,"maxLength":20,"pattern":"^[a-z]+$"},"n":{"$ref":"#/definitions/pos"},"x":{"type":"number","maximum":100.5,"exclusiveMinimum":-1},
+        "list":{"type":"array","items":[{"type":"integer"},{"type":"string"}],"additionalItems":{"type":"boolean"},"minItems":1,"maxItems":5,"uniqueItems":true,"contains":{"const":true}},
+        "obj":{"type":"object","patternProperties":{"^k[0-9]$":{"type":"integer"}},"additionalProperties":{"type":"string"},"propertyNames":{"maxLength":3},"minProperties":1,"maxProperties":4,"dependencies":{"k1":["k2"],"k2":{"required":["k1"]}}},
+        "e":{"enum":[1,"two",[3],{"four":4},null]},"c":{"const":{"a":[1,2]}}},
+      "required":["payload","name"],"allOf":[{"type":"object"}],"anyOf":[{"required":["nope"]},{"required":["name"]}],"oneOf":[{"required":["name"]},{"required":["nope"]}],"not":{"required":["never"]},
+      "if":{"properties":{"n":{"const":7}}},"then":{"required":["x"]},"else":{"required":["never"]}})");
+    A->schema_wide7 = new jsoncons::jsonschema::json_schema<json>(jsoncons::jsonschema::make_json_schema(w7));
+    json w20 = json::parse(R"({"$schema":"https://json-schema.org/draft/2020-12/schema","$id":"http://x/root","$defs":{"node":{"$dynamicAnchor":"node","type":"object","properties":{"kids":{"type":"array","items":{"$dynamicRef":"#node"}}}},"s":{"$anchor":"str","type":"string"}},
+      "type":"object","properties":{"tree":{"$ref":"#/$defs/node"},"name":{"$ref":"#str"},"list":{"prefixItems":[{"type":"integer"}],"items":{"type":["string","boolean"]},"contains":{"type":"boolean"},"minContains":1,"maxContains":2,"unevaluatedItems":false},
+        "obj":{"dependentRequired":{"k1":["k2"]},"dependentSchemas":{"k2":{"required":["k1"]}},"properties":{"k1":true},"unevaluatedProperties":{"type":"integer"}}},
+      "patternProperties":{"^(payload|b64|date|time|dt|email|host|ip4|ip6|re|ptr|uri|n|x|e|c)$":true},"unevaluatedProperties":false})");
+    A->schema_wide20 = new jsoncons::jsonschema::json_schema<json>(jsoncons::jsonschema::make_json_schema(w20));
+    A->wide = json::parse(R"({"payload":"{\"x\":[1,2,{\"y\":null}]}","b64":"eyJ4IjoxfQ==","date":"2020-02-29","time":"12:00:00Z","dt":"2020-02-29T12:00:00Z","email":"a@b.cd","host":"www.example.com","ip4":"1.2.3.4","ip6":"::1","re":"^a(b|c)*$","ptr":"/a/0",
+      "uri":"http://a/b?c#d","name":"abc","n":7,"x":2.5,"list":[1,"two",true],"obj":{"k1":1,"k2":2,"zz":"s"},"e":{"four":4},"c":{"a":[1,2]},"tree":{"kids":[{"kids":[]},{"kids":[{"kids":[]}]}]}})");
+    A->jp2 = new jsoncons::jsonpath::jsonpath_expression<json>(jsoncons::jsonpath::make_expression<json>(
+        "$.a[?(tokenize(@.k, $.seps[0])[0] != 'q' || tokenize(@.k, $.seps[1])[0] == 'q' || abs(@.n) > 100 || ceil(@.n) == floor(@.n) && contains(@.k, 'b') && ends_with(@.k, 'c') || starts_with(@.k, 'ab') && length(keys(@)) == 3 && to_number('1') == 1 && avg($.nums) > 0 && sum($.nums) > 0 && prod($.nums) > 0 && min($.nums) < max($.nums) && @.k =~ /^[ax]b.$/i)].k"));
+    A->jm2 = new jsoncons::jmespath::jmespath_expression<json>(jsoncons::jmespath::make_expression<json>(
+        "{ab: abs(`-1`), av: avg(nums), ce: ceil(`1.2`), co: contains(b, 'y'), en: ends_with(b, 'z'), fl: floor(`1.8`), jo: join('-', a[*].k), ke: keys(c), le: length(a), ma: map(&n, a), mx: max(nums), mb: max_by(a, &n).k, me: merge(c, {z: `1`}), mi: min(nums), mn: min_by(a, &n).k, nn: not_null(n, b), re: reverse(nums), so: sort(nums), sb: sort_by(a, &k)[0].k, st: starts_with(b, 'x'), su: sum(nums), ta: to_array(b), ts: to_string(c), tn: to_number('2.5'), ty: type(a), va: values(c.d)}"));
+    A->numbers = json::parse(R"([13.306752873611, 1e23, -1e23, 7.2905070478438485e+34, 5e-324, 1.7976931348623157e308, 0.1, 100.0, 123456789.125, -0.0, 1e-7, 2.5, 18446744073709551616, 1.5e400])");
 }
 
 // ---- thread bodies: read-only operations on the shared artifacts --------------------------------------
@@ -40,15 +68,22 @@ static std::string observe(int scenario) {
             A->schema->validate(A->doc, [&](const jsoncons::jsonschema::validation_message& m) { ++n; o += m.keyword(); o += ';'; return jsoncons::jsonschema::walk_result::advance; });
             bool v7 = A->schema7->is_valid(A->doc);
             o += "valid=" + std::to_string(v) + " msgs=" + std::to_string(n) + " v7=" + std::to_string(v7);
+            for (auto* sc : {A->schema_wide7, A->schema_wide20}) for (const json* inst : {&A->wide, &A->doc}) {
+                size_t m = 0; std::string kws;
+                sc->validate(*inst, [&](const jsoncons::jsonschema::validation_message& msg) { ++m; kws += msg.keyword(); kws += ','; return jsoncons::jsonschema::walk_result::advance; });
+                o += " |" + std::to_string(sc->is_valid(*inst)) + ":" + std::to_string(m) + ":" + kws;
+            }
             break;
         }
         case 1: {   // compiled JSONPath expression (filter + functions + regex)
             json r = A->jp->evaluate(A->doc); json p = A->jp->evaluate(A->doc, jsoncons::jsonpath::result_options::path);
             r.dump(o); o += " "; p.dump(o);
+            json r2 = A->jp2->evaluate(A->doc); o += " "; r2.dump(o);
             break;
         }
         case 2: {   // compiled JMESPath expression (projection + sort_by + multiselect)
             json r = A->jm->evaluate(A->doc); r.dump(o);
+            json r2 = A->jm2->evaluate(A->doc); o += " "; r2.dump(o);
             break;
         }
         case 3: {   // a json / ojson value that is not being modified
@@ -63,6 +98,12 @@ static std::string observe(int scenario) {
             o += " contains=" + std::to_string(d.contains("a")) + std::to_string(d.contains("zz")) + " find=" + std::to_string(d.find("c") != d.object_range().end());
             std::vector<uint8_t> cb; jsoncons::cbor::encode_cbor(d, cb); o += " cbor=" + std::to_string(cb.size());
             o += " ptr=" + jsoncons::jsonpointer::get(d, "/a/1/k").as<std::string>();
+            // every double-formatting path: shortest digits, its fallback, fixed / scientific / general with a precision
+            { std::string t; A->numbers.dump(t); o += " num=" + t; }
+            for (auto ff : {jsoncons::float_chars_format::general, jsoncons::float_chars_format::fixed, jsoncons::float_chars_format::scientific}) for (int prec : {0, 9}) {
+                jsoncons::json_options jo; jo.float_format(ff); if (prec) jo.precision((int8_t)prec); std::string t; A->numbers.dump(t, jo); o += " " + std::to_string(t.size()) + t.substr(0, 40); }
+            { jsoncons::json_options jo; jo.bignum_format(jsoncons::bignum_format_kind::base64); jo.escape_all_non_ascii(true); jo.spaces_around_comma(jsoncons::spaces_option::space_before_and_after); std::string t; A->numbers.dump_pretty(t, jo); o += " pl=" + std::to_string(t.size()); }
+            o += " dbl=" + std::to_string(A->numbers[0].as<double>()) + " str=" + A->numbers[12].as<std::string>() + " " + A->numbers[1].as<std::string>();
             break;
         }
         case 4: {   // one-shot query entry points on a shared document (compile + evaluate per call)
